@@ -142,7 +142,15 @@ async fn auth(a: &Value) -> Value {
 async fn main() {
     let args: Vec<String> = std::env::args().collect();
     let scenario = args.get(1).expect("scenario").as_str();
-    let a: Value = serde_json::from_str(args.get(2).map(|s| s.as_str()).unwrap_or("{}")).expect("json");
+    let raw = match args.get(2).map(|s| s.as_str()) {
+        Some("-") | None => {
+            let mut s = String::new();
+            std::io::Read::read_to_string(&mut std::io::stdin(), &mut s).expect("stdin");
+            s
+        }
+        Some(s) => s.to_owned(),
+    };
+    let a: Value = serde_json::from_str(if raw.trim().is_empty() { "{}" } else { &raw }).expect("json");
     let out = match scenario {
         "tie_break" => json!({"result": h::tie_break(&peer(&a["own"]), &peer(&a["remote"]), origin(&a["existing"]), origin(&a["new"]))}),
         "peer_lt" => json!({"result": peer(&a["a"]) < peer(&a["b"])}),
